@@ -285,6 +285,81 @@ func runC05(w *World, r *Report, tier string) {
 			}
 		})
 		r.Check(bad == "", "R5", w.funcKey(f), w.pos(f.Pos()), bad, "n is copy(p, …), an inner Read/Write count on p, or 0")
+		// a Read that hands out a frame it holds with copy(p, X): what did not fit, X[n:], is kept in a field of the
+		// receiver, and a new frame is taken only when nothing is kept — every byte received is delivered exactly once
+		{
+			badRem := ""
+			nCopy := 0
+			walkPaths(entryLoc(f), nil, nil, 5000, func(path []ssa.Instruction, end pathEnd) {
+				rt, ok := path[len(path)-1].(*ssa.Return)
+				if !ok {
+					return
+				}
+				cp, ok := resolveOn(rt.Results[0], len(path)-1, path).(*ssa.Call)
+				if !ok || w.callKey(cp) != "builtin.copy" {
+					return
+				}
+				nCopy++
+				src := cp.Call.Args[1]
+				var kept *types.Var
+				forPath(path, func(i int, in ssa.Instruction) {
+					st, ok := in.(*ssa.Store)
+					if !ok {
+						return
+					}
+					fa, ok := st.Addr.(*ssa.FieldAddr)
+					if !ok {
+						return
+					}
+					sl, ok := st.Val.(*ssa.Slice)
+					if !ok || sl.High != nil || sl.Low != ssa.Value(cp) {
+						return
+					}
+					if sameValue(sl.X, src) || sl.X == src {
+						kept = fieldOfAddr(fa)
+					}
+				})
+				if kept == nil {
+					badRem = "Read hands out the first bytes of a frame (" + w.nfOn(src, path) + ") and does not keep the rest: whatever does not fit into the caller's buffer is lost, or the same bytes are delivered again (return at " + w.ipos(rt) + ")"
+					return
+				}
+				if f2, _ := loadedField(src); f2 == kept {
+					return // serving what was kept
+				}
+				// a new frame: only when nothing is kept
+				empty := pathAsserts(path, func(c ssa.Value, truth bool) bool {
+					bo, ok := c.(*ssa.BinOp)
+					if !ok {
+						return false
+					}
+					isLen := func(v ssa.Value) bool {
+						cl, ok := v.(*ssa.Call)
+						if !ok || w.callKey(cl) != "builtin.len" {
+							return false
+						}
+						f3, _ := loadedField(cl.Call.Args[0])
+						return f3 == kept
+					}
+					z, isZ := intConst(bo.Y)
+					if !isZ || z != 0 || !isLen(bo.X) {
+						return false
+					}
+					switch bo.Op {
+					case token.GTR, token.NEQ:
+						return !truth
+					case token.EQL, token.LEQ:
+						return truth
+					}
+					return false
+				})
+				if !empty {
+					badRem = "Read takes a new frame although bytes of the previous one may still be kept: they are overwritten and lost (return at " + w.ipos(rt) + ")"
+				}
+			})
+			if nCopy > 0 {
+				r.Check(badRem == "", "R5", w.funcKey(f)+"#remainder", w.pos(f.Pos()), badRem, fmt.Sprintf("%d path(s) handing out copy(p, X): X[n:] kept; a new frame only when nothing is kept", nCopy))
+			}
+		}
 		// a Read that wraps another Read: the inner error (the end of the stream, a lost connection) reaches the caller,
 		// and a path that reads nothing does not report (0, nil) for ever
 		var inner []*ssa.Call
